@@ -90,6 +90,37 @@ theorem C12_hash_order_filtered {π ρ : Type} (f : π → ρ) (kvs : List (Stri
   rw [ExpressHash.dictOrder_mapP, List.map_map]
   rfl
 
+/-! ## exppp: order of the item-wise USE / REFERENCE groups -/
+
+/-- With the grouping key found in the tree (`refoutKey`, regenerated from pretty_ref.c: the supplier schema's NAME) the
+    order of the `USE FROM s ( … )` / `REFERENCE FROM s ( … )` groups is a function of the names only: neither the addresses of
+    the Schema objects nor those of the freshly allocated per-supplier lists influence it. -/
+theorem C12_refout_group_order_names_only (α β : Ambient) (b b' : Nat) (entries : List RefEntry) :
+    refoutGroupOrder Generated.RefOut.refoutKey α b entries = refoutGroupOrder Generated.RefOut.refoutKey β b' entries := by
+  have hk : Generated.RefOut.refoutKey = .schemaName := by decide
+  rw [hk]
+  have key : ∀ (γ : Ambient) (c : Nat), refoutGroupOrder .schemaName γ c entries =
+      ((ExpressHash.dictOrder ((((ExpressHash.dictOrder (entries.map fun e => (e.item, e))).map (·.2)).zipIdx.map
+          fun (p : RefEntry × Nat) => (p.1.supplier, p.1.supplier)))).map (·.2)) := by
+    intro γ c
+    unfold refoutGroupOrder
+    simp only [refKeyOf]
+    have h := ExpressHash.dictOrder_mapP (fun (p : String × Nat) => p.1)
+      ((((ExpressHash.dictOrder (entries.map fun e => (e.item, e))).map (·.2)).zipIdx).map
+        fun (p : RefEntry × Nat) => (p.1.supplier, (p.1.supplier, γ.addr (c + p.2)))) (fun _ => true)
+    simp only [List.map_map] at h
+    have e1 : ((ExpressHash.mapE fun (p : String × Nat) => p.1) ∘ fun (p : RefEntry × Nat) => (p.1.supplier, (p.1.supplier, γ.addr (c + p.2))))
+            = fun (p : RefEntry × Nat) => (p.1.supplier, p.1.supplier) := rfl
+    rw [e1] at h
+    rw [h, List.map_map]
+    rfl
+  rw [key α b, key β b']
+
+/- (Keyed by the Schema object's address printed with `%p` instead — `RefKey.address`, the seeded variant — the model gives
+   `["supplier_b", "supplier_a", "supplier_c"]` under one heap layout and `["supplier_c", "supplier_b", "supplier_a"]` under
+   another (`#eval refoutGroupOrder .address …`); not stated as a theorem because the kernel cannot evaluate the UTF-8 byte
+   view of strings that `rawHash` uses, and `native_decide` is not allowed.) -/
+
 /-! ## the scanner -/
 
 /-- The CMakeLists.txt files the scanner writes do not depend on the ambient at all; its stdout depends on it only
